@@ -213,43 +213,81 @@ def LItems.ofList : List LItem → LItems
   | [] => .nil
   | i :: is => .cons i (LItems.ofList is)
 
-/-! ## `select` ⇄ `filter | union | graph | graph_rec | extend | order_by | project | distinct | slice`
+/-! ## `select` ⇄ `filter | union | graph | graph_rec | extend | order_by | project | distinct | slice | check_exists`
 (`sparql/src/exec.rs`): one or two calls per operator of the QUERY; `graph_rec` loops over the graph
-names of the DATASET. -/
+names of the DATASET.  `filter`, `extend` and `order_by` first walk their expression(s) with
+`check_exists`, which calls itself on the sub-expressions (unary / binary directly, n-ary through
+`try_for_each`) and `self.select(pattern, &[], None)` on the pattern of an `EXISTS`. -/
 
+mutual
 inductive Alg where
   | bgp
   | unsupported
-  | filter (inner : Alg)
+  | filter (e : Expr) (inner : Alg)
   | union (l r : Alg)
   | graphConst (inner : Alg)
   | graphVar (inner : Alg)
-  | extend (inner : Alg)
-  | orderBy (inner : Alg)
+  | extend (e : Expr) (inner : Alg)
+  | orderBy (es : Exprs) (inner : Alg)
   | project (inner : Alg)
   | distinct (inner : Alg)
   | slice (inner : Alg)
-  deriving Repr, DecidableEq, Inhabited
+/-- a query expression as `check_exists` sees it -/
+inductive Expr where
+  /-- `NamedNode | Literal | Variable | Bound` -/
+  | leaf
+  /-- `Exists(pattern)` -/
+  | exists (pattern : Alg)
+  /-- every other constructor: its sub-expressions -/
+  | node (args : Exprs)
+inductive Exprs where
+  | nil
+  | cons (e : Expr) (es : Exprs)
+end
 
+mutual
 def Alg.height : Alg → Nat
   | .bgp | .unsupported => 0
-  | .filter i | .graphConst i | .graphVar i | .extend i | .orderBy i | .project i | .distinct i | .slice i =>
-    1 + i.height
+  | .graphConst i | .graphVar i | .project i | .distinct i | .slice i => 1 + i.height
+  | .filter e i | .extend e i => 1 + max e.height i.height
+  | .orderBy es i => 1 + max es.height i.height
   | .union l r => 1 + max l.height r.height
+def Expr.height : Expr → Nat
+  | .leaf => 0
+  | .exists p => 1 + p.height
+  | .node args => 1 + args.height
+def Exprs.height : Exprs → Nat
+  | .nil => 0
+  | .cons e es => max e.height es.height
+end
 
+mutual
 /-- depth of `select(pattern)` (calls of the functions of this recursion) over a dataset with `g`
 named graphs.  `graph` with an unbound variable: `self.select(inner, &[], binding)` for the
 variables, then (if there is any graph name) `graph_rec`, whose loop calls `select(inner, …)` once
 per name. -/
 def selectD (g : Nat) : Alg → Nat
   | .bgp | .unsupported => 1
-  | .filter i | .extend i | .orderBy i | .project i | .distinct i | .slice i | .graphConst i =>
-    2 + selectD g i
+  | .project i | .distinct i | .slice i | .graphConst i => 2 + selectD g i
+  -- select → filter → (check_exists(expression) ; select(inner))
+  | .filter e i | .extend e i => 2 + max (checkD g e) (selectD g i)
+  -- select → order_by → (`for oe in expression { self.check_exists(e)?; }` ; select(inner))
+  | .orderBy es i => 2 + max (checkArgsD g es) (selectD g i)
   | .union l r => 2 + max (selectD g l) (selectD g r)
   | .graphVar i =>
     let vars := 2 + selectD g i
     if g = 0 then vars
     else max vars (3 + (List.range g).foldl (fun d _ => max d (selectD g i)) 0)
+/-- `check_exists` -/
+def checkD (g : Nat) : Expr → Nat
+  | .leaf => 1
+  | .exists p => 1 + selectD g p
+  | .node args => 1 + checkArgsD g args
+/-- the sub-expressions, one after the other -/
+def checkArgsD (g : Nat) : Exprs → Nat
+  | .nil => 0
+  | .cons e es => max (checkD g e) (checkArgsD g es)
+end
 
 /-! ## the prettifier (`turtle/src/serializer/_pretty.rs`):
 `write_term ⇄ write_bnode ⇄ write_properties ⇄ write_objects ⇄ write_object ⇄ write_node`
